@@ -62,6 +62,10 @@ func aePictures(seed int64, alphaOnly bool) []aePic {
 	}
 	semi1 := clone(semi) // one pixel changes inside the translucent band (neighbours unchanged, alpha 128)
 	semi1.SetNRGBA(3, 3, color.NRGBA{1, 2, 3, 128})
+	semiO := clone(semi) // an OPAQUE pixel appears inside the translucent band: its even-snapped
+	// rectangle contains unchanged translucent neighbours and every changed pixel is opaque,
+	// which is exactly when the encoder may choose alpha blending
+	semiO.SetNRGBA(3, 3, color.NRGBA{250, 240, 10, 255})
 	semiT := clone(semi) // a translucent pixel becomes transparent
 	semiT.SetNRGBA(4, 4, color.NRGBA{})
 	bin := clone(base) // binary alpha: left half transparent
@@ -91,6 +95,7 @@ func aePictures(seed int64, alphaOnly bool) []aePic {
 		self("graded", graded)
 		self("semi-band", semi)
 		self("semi-band-1px", semi1)
+		self("semi-band-opaque-px", semiO)
 		self("transparent", image.NewNRGBA(image.Rect(0, 0, aeW, aeH)))
 		self("opaque", base)
 		return out
@@ -116,6 +121,7 @@ func aePictures(seed int64, alphaOnly bool) []aePic {
 	self("all-changed", p4)
 	self("semi-band", semi)
 	self("semi-band-1px", semi1)
+	self("semi-band-opaque-px", semiO)
 	self("semi-to-transparent", semiT)
 	self("binary", bin)
 	self("binary+1px", bin1)
@@ -177,7 +183,7 @@ func aeCoreOps(pics []aePic) []aeOp {
 	var ops []aeOp
 	for i, p := range pics {
 		switch p.name {
-		case "base", "binary", "binary+1px", "binary+1px-recoloured", "binary+other-px", "semi-band", "semi-band-1px":
+		case "base", "binary", "binary+1px", "binary+1px-recoloured", "binary+other-px", "semi-band", "semi-band-1px", "semi-band-opaque-px":
 			ops = append(ops, aeOp{i, 100})
 		}
 	}
@@ -424,8 +430,12 @@ func aeOps(pics []aePic, alphaOnly bool) []aeOp {
 		}
 	}
 	if !alphaOnly {
-		for _, d := range []int{0, 0xFFFFFF} {
-			ops = append(ops, aeOp{8, d}) // "binary"
+		for i := range pics {
+			if pics[i].name == "binary" {
+				for _, d := range []int{0, 0xFFFFFF} {
+					ops = append(ops, aeOp{i, d})
+				}
+			}
 		}
 	}
 	return ops
